@@ -463,3 +463,71 @@ def edit_history(case, ctx):
     ctx.tag(f"ops:{min(n_ops, 4)}", "edit_between_ops" if edited_since_op else None,
             *sorted({"edit:" + x["edit"] for x in case["steps"] if x["kind"] == "edit"}))
     ctx.nontrivial_if(edited_since_op and n_ops >= 2)
+
+
+# --- an operand that is a Spectrum subclass (Blackbody) -------------------------------------------------------------
+
+@st.composite
+def subclass_case(draw, tier="quick"):
+    lo = draw(gen.finite(300.0, 900.0))
+    hi = lo + draw(gen.finite(100.0, 900.0))
+    n1 = draw(st.integers(5, 60))
+    rel = draw(st.sampled_from(["wider", "shifted_up", "shifted_down", "disjoint", "inside", "same"]))
+    span = hi - lo
+    a, b = {"wider": (lo - 0.3 * span, hi + 0.4 * span), "shifted_up": (lo + 0.4 * span, hi + 0.5 * span),
+            "shifted_down": (lo - 0.5 * span, hi - 0.3 * span), "disjoint": (hi + 0.2 * span, hi + 0.9 * span),
+            "inside": (lo + 0.2 * span, hi - 0.2 * span), "same": (lo, hi)}[rel]
+    n2 = draw(st.integers(3, 40))
+    return {"w_bb": np.linspace(lo, hi, n1), "temp": draw(gen.finite(2500.0, 12000.0)), "w2": np.linspace(max(a, 50.0), b, n2),
+            "seed": draw(st.integers(0, 2**31 - 1)), "rel": rel, "op": draw(st.sampled_from(["multiply", "add", "subtract", "divide"])),
+            "bb_left": draw(st.booleans()), "fill": draw(st.sampled_from([0, 0, 0.5])),
+            "vegamag": draw(st.sampled_from([False, False, True]))}
+
+
+@hyp("C13", "subclass_operand", lambda tier: subclass_case(tier),
+     "a Blackbody (or Blackbody.vegamag) combined with a plain spectrum on a wider / shifted / disjoint / nested range: "
+     "inside its range the blackbody contributes its own law, outside the fill value like any operand", examples=(200, 800))
+def subclass_operand(case, ctx):
+    from lentil import radiometry as rad
+    rng = np.random.default_rng(case["seed"])
+    w1, w2 = case["w_bb"], case["w2"]
+    v2 = rng.uniform(0.2, 1.0, size=len(w2))
+    with lentil_call("C13.subclass.build", "Blackbody / Spectrum"):
+        if case["vegamag"]:
+            bb = rad.Blackbody.vegamag(w1.copy(), case["temp"], 3.0, "V", waveunit="nm")
+        else:
+            bb = rad.Blackbody(w1.copy(), case["temp"], waveunit="nm", valueunit="photlam")
+        other = Spectrum(w2.copy(), v2.copy(), waveunit="nm")
+    x, y = (bb, other) if case["bb_left"] else (other, bb)
+    ctx.tag("rel:" + case["rel"], "op:" + case["op"], "bb_left" if case["bb_left"] else "bb_right",
+            "vegamag" if case["vegamag"] else "blackbody")
+    ctx.nontrivial_if(case["rel"] != "same")
+    with lentil_call("C13.subclass", f"{case['op']}(fill={case['fill']})"):
+        with np.errstate(all="ignore"):
+            res = getattr(x, case["op"])(y, fill_value=case["fill"])
+    rw = np.asarray(res.wave, dtype=float)
+    lo, hi = min(w1[0], w2[0]), max(w1[-1], w2[-1])
+    if abs(rw[0] - lo) > 1e-9 * (hi - lo) or abs(rw[-1] - hi) > 1e-9 * (hi - lo):
+        raise Violation("C13.subclass.range", f"result spans [{rw[0]}, {rw[-1]}], union is [{lo}, {hi}]")
+    eps_ = 1e-9 * (hi - lo)
+    in1 = (rw >= w1[0] + eps_) & (rw <= w1[-1] - eps_)
+    out1 = (rw < w1[0] - eps_) | (rw > w1[-1] + eps_)
+    in2 = (rw >= w2[0] + eps_) & (rw <= w2[-1] - eps_)
+    out2 = (rw < w2[0] - eps_) | (rw > w2[-1] + eps_)
+    # the blackbody's own law at the grid points (its documented sampling), the plain operand by linear interpolation
+    law = np.asarray(bb.sample(rw, waveunit="nm"), dtype=float)
+    e1 = np.where(in1, law, case["fill"])
+    e2 = np.where(in2, np.interp(rw, w2, v2), case["fill"])
+    a_, b_ = (e1, e2) if case["bb_left"] else (e2, e1)
+    with np.errstate(all="ignore"):
+        exp = OPS[case["op"]](a_, b_)
+    sel = (in1 | out1) & (in2 | out2) & np.isfinite(exp)
+    got = np.asarray(res.value, dtype=float)
+    sc = max(cm_max(exp[sel]), 1e-300)
+    with np.errstate(all="ignore"):
+        bad = sel & ~(np.abs(got - exp) <= 1e-9 * sc)
+    if bad.any():
+        i = int(np.argmax(bad))
+        where = "outside the blackbody's range" if out1[i] else "inside both ranges" if in2[i] else "outside the plain operand's range"
+        raise Violation("C13.subclass.value", f"{case['op']} of a Blackbody and a spectrum ({case['rel']}): at {rw[i]:.3f} nm "
+                                              f"({where}) got {got[i]:.6g}, expected {exp[i]:.6g}")
